@@ -208,6 +208,15 @@ def mutate_cfg(rng, ast):
     rules = a["ch"]
     order = list(range(len(rules)))
     rng.shuffle(order)
+    if rng.random() < 0.2:
+        # an item of one configurator is a package (a named group of items) in the other: the id is a leaf there, a sub-proposition here
+        spots = [(r, j) for r in rules if isinstance(r, dict) and r["k"] not in ("CcAny", "CcXor") for j, c in enumerate(r.get("ch", [])) if isinstance(c, dict) and c["k"] == "str"]
+        if spots:
+            r, j = rng.choice(spots)
+            i0 = r["ch"][j]["id"]
+            if json.dumps(a).count(json.dumps({"k": "str", "id": i0})) == 1 and json.dumps(a).count('"id": ' + json.dumps(i0)) == 1:      # named nowhere else
+                r["ch"][j] = {"k": rng.choice(["All", "Any"]), "ch": [{"k": "str", "id": i0 + "_1"}, {"k": "str", "id": i0 + "_2"}], "id": i0}
+                return a, "item_becomes_package"
     if rng.random() < 0.5:
         order.sort(key=lambda k: rules[k]["k"] not in ("CcAny", "CcXor"))      # prefer a change that the text form does not show
     for k in order:
@@ -292,6 +301,10 @@ def gen_cfg_family(rng):
         src = rng.randrange(len(fam))
         m, kind = mutate_cfg(rng, fam[src])
         fam.append(m); kinds.append(kind); pairs.append((src, len(fam) - 1, kind))
+    # ids that are a package (a sub-proposition) in one member of the family are not used as items by later additions: an item
+    # reference to a sub-proposition's id is a by-id reference, outside the plain models this check speaks about
+    pk0 = {c_["id"] for m_ in fam for r_ in m_.get("ch", []) if isinstance(r_, dict) for c_ in r_.get("ch", []) if isinstance(c_, dict) and c_["k"] not in ("str", "var") and c_.get("id")}
+    names = [n_ for n_ in names if n_ not in pk0] or ["zq"]
     if rng.random() < 0.3:
         fam.append({"k": "addto", "src": rng.randrange(len(fam)), "rule": dict(rule_ast(rng, names, 9), id="RX")})
         kinds.append("derived_by_add")
@@ -312,6 +325,11 @@ def gen_cfg_family(rng):
             first, second = (src, dst) if rng.random() < 0.5 else (dst, src)
             what = rng.choice(["poly", "poly", "prios"])
             ops += [{"op": what, "obj": first}, {"op": what, "obj": second}]
+    for src, dst, kind in pairs:
+        if kind == "item_becomes_package":
+            first, second = (src, dst) if rng.random() < 0.6 else (dst, src)
+            pr = [{rng.choice(names): rng.randint(1, 3)}]
+            ops += [{"op": "select", "obj": first, "prios": pr, "only_leafs": True}, {"op": "select", "obj": second, "prios": pr, "only_leafs": True}, {"op": "leafs", "obj": second}]
     if twin:
         ops += [{"op": rng.choice(["poly", "prios"]), "obj": twin[1]}, {"op": "prios", "obj": twin[0]}, {"op": "poly", "obj": twin[0]}]
     for _ in range(rng.randint(4, 12)):
@@ -331,7 +349,11 @@ def gen_cfg_family(rng):
         elif r < 0.95:
             op = {"op": "json", "obj": k}
         else:
-            op = {"op": "evaluate", "obj": k, "d": [[n, "i", v, v] for n in names for v in [rng.randint(0, 1)]]}
+            # items only: an id that is a package (sub-proposition) in one of the family is not named - naming a sub-proposition
+            # in an interpretation writes to the object (known finding D2, exercised and classified in the d2 stream)
+            pk = {m_["ch"][j_]["ch"][i_]["id"] for m_ in fam if m_.get("k") == "Stingy" for j_ in range(len(m_["ch"])) if isinstance(m_["ch"][j_], dict)
+                  for i_, c_ in enumerate(m_["ch"][j_].get("ch", [])) if isinstance(c_, dict) and c_["k"] not in ("str", "var") and c_.get("id")}
+            op = {"op": "evaluate", "obj": k, "d": [[n, "i", v, v] for n in names if n not in pk for v in [rng.randint(0, 1)]]}
         ops.append(op)
     return fam, kinds, ops
 
